@@ -132,12 +132,13 @@ coef = st.one_of(st.sampled_from([0.5, -0.5, 0.25, 1.0, -1.0, 0.1]), st.floats(-
 
 @st.composite
 def arma_case(draw):
-    cplx = draw(st.booleans())
+    cplx_a = draw(st.booleans())
+    cplx_b = draw(st.booleans())          # independently: a real AR part with a complex MA part and vice versa
     na = draw(st.integers(0, 12))
     nb = draw(st.integers(0, 12))
     which = draw(st.sampled_from(["both", "both", "A", "B"]))
-    a = [[draw(coef), draw(coef) if cplx else 0.0] for _ in range(na)] if which in ("both", "A") else None
-    b = [[draw(coef), draw(coef) if cplx else 0.0] for _ in range(nb)] if which in ("both", "B") else None
+    a = [[draw(coef), draw(coef) if cplx_a else 0.0] for _ in range(na)] if which in ("both", "A") else None
+    b = [[draw(coef), draw(coef) if cplx_b else 0.0] for _ in range(nb)] if which in ("both", "B") else None
     m = max(len(a) if a else 0, len(b) if b else 0)
     nfft = draw(gen.nfft_at_least(m + 1, 6))
     return {"a": a, "b": b, "rho": draw(st.one_of(st.sampled_from([1.0, 0.5, 2.0]), st.floats(1e-3, 1e3))),
@@ -145,9 +146,11 @@ def arma_case(draw):
 
 
 def _vec(v):
+    """real dtype when every imaginary part is zero (the number type the user would pass), complex otherwise"""
     if v is None:
         return None
-    return np.array([complex(r, i) for r, i in v], dtype=complex)
+    z = np.array([complex(r, i) for r, i in v], dtype=complex)
+    return z.real.copy() if len(z) and not np.any(z.imag) else z
 
 
 @sub("C08.arma2psd", strategy=arma_case(), quick=1500, thorough=50000, shards_quick=2,
@@ -162,8 +165,10 @@ def c08_arma2psd(ctx, case):
     A = ref.polyval_unit(np.concatenate(([1.0], a)) if a is not None else [1.0], f)
     B = ref.polyval_unit(np.concatenate(([1.0], b)) if b is not None else [1.0], f)
     exp = (rho / T) * np.abs(B) ** 2 / np.abs(A) ** 2
-    cplx = (a is not None and np.any(a.imag != 0)) or (b is not None and np.any(b.imag != 0))
-    ctx.cls("A" if b is None else ("B" if a is None else "AB"), "complex" if cplx else "real", "odd" if nfft % 2 else "even")
+    ca = a is not None and np.iscomplexobj(a)
+    cb = b is not None and np.iscomplexobj(b)
+    ctx.cls("A" if b is None else ("B" if a is None else "AB"), "A %s / B %s" % ("complex" if ca else "real", "complex" if cb else "real"),
+            "odd" if nfft % 2 else "even")
     ctx.nontrivial((0 if a is None else len(a)) + (0 if b is None else len(b)) >= 2)
     ctx.check(len(got) == nfft, "arma2psd returned %d values for NFFT=%d" % (len(got), nfft))
     ctx.check(not np.iscomplexobj(got) or float(np.max(np.abs(got.imag))) == 0, "arma2psd returned complex values")
